@@ -339,6 +339,9 @@ def run_one(ch, env):
                     lv, ref = fitsgen.numpy_tiles(col, P, False)
                     content_ref = ref
                     res["probes"]["content_checked"] = 1
+            # one history in four lets tile_fits choose the output directory itself (next to the first input)
+            default_out = ch.draw(4, kind="default_out_dir") == 3
+            res["probes"]["default_out_dir"] = int(default_out)
             nops = 1 + ch.draw(4, p0=0.35, kind="n_calls")
             hist = []
             for k in range(nops):
@@ -353,13 +356,18 @@ def run_one(ch, env):
                 last_kw = dict(kw)
 
                 def call():
-                    return toasty.tile_fits(col.paths, out_dir=out, override=override, parallel=workers,
+                    return toasty.tile_fits(col.paths, out_dir=None if default_out else out, override=override, parallel=workers,
                                             tiling_method=TilingMethod.TOAST if toast_mode else TilingMethod.TAN, **kw)
 
                 r = under_sim(call, label, first=(k == 0))
                 if state["violation"] or state["skip"]:
                     break
                 out_dir, b = r
+                if default_out:
+                    if not os.path.isdir(out_dir) or os.path.commonpath([os.path.abspath(out_dir), d]) != d:
+                        state["violation"] = viol(PROP, "bad-default-out-dir", "%s: returned output directory %r does not exist under the inputs' directory" % (label, out_dir))
+                        break
+                    out = out_dir
                 v = check_wtml_vs_tree(out, label, content_ref)
                 if v is None:
                     v = check_builder_vs_wtml(b, out, label)
